@@ -32,7 +32,9 @@ import pyarrow as pa  # noqa: E402
 import nested_pandas  # noqa: E402,F401
 from nested_pandas.series import ext_array as _ext  # noqa: E402
 
-assert os.path.realpath(nested_pandas.__file__).startswith("/repo/src/"), nested_pandas.__file__
+# (VERIF_REPO_SRC: mutation drills only - tools/prun_seeded.sh runs the kept seeded changes in scratch worktrees of /repo, in parallel;
+# the registered commands never set it)
+assert os.path.realpath(nested_pandas.__file__).startswith(os.environ.get("VERIF_REPO_SRC", "/repo/src") + "/"), nested_pandas.__file__
 assert getattr(_ext, "_VERIF", False), "hook not enabled"
 
 # --------------------------------------------------------------------------------------
